@@ -46,6 +46,7 @@ def run(chk):
     chk.rule("R3", "flag mapping for descending / nulls_last on SQL and Polars, marker peeling in Order.from_col_expr")
     chk.rule("R4", "grouping state injected as partition_by for every non-element-wise function type")
     chk.rule("R5", "partition_by / order_by reach OVER() unswapped on both back ends; shift offset sign -> LAG / LEAD")
+    chk.rule("R8", "Polars window functions without partition: arrange= takes effect for every argument count (finite-domain evaluation of the ColFn branch)")
     chk.rule("R6", "interval analysis: the rank-based emulation of descending / nulls_last orders keys correctly and its null sentinels dominate the key range for every row count")
 
     # ---- R1
@@ -113,6 +114,8 @@ def run(chk):
     _flags_sql_order(chk, repo)
     _flags_polars_sort(chk, pol, sort, items)
     _marker_peeling(chk, repo, sym)
+    _dedup_interpreted(chk, repo)
+    _polars_window_order(chk, repo, sym)
 
     # ---- R4
     _grouping_injection(chk, repo)
@@ -274,6 +277,129 @@ def _marker_peeling(chk, repo, sym):
     chk.ob("R3", ce, f, f"Order.from_col_expr interpreted on {n_cases} marker chains: outermost marker wins, default ascending / nulls unspecified, stops at the first non-marker",
            not bad and n_cases >= 100,
            f"Order.from_col_expr gives a wrong ordering for {len(bad)} of {n_cases} marker chains, e.g. markers (outermost first) {bad[0][0] if bad else ''} {bad[0][1] if bad else ''}")  # fmt: skip
+
+
+def _polars_window_order(chk, repo, sym):
+    """Polars window functions without a partition: `arrange=` must take effect for every number of positional arguments
+    (row_number() has none).  The ColFn branch of compile_col_expr is evaluated (A9) for arrange given, no partition, a
+    window operator and 0 / 1 arguments: the value returned must have been ordered - its own `sort_by` (restoring the
+    table order after computing on sorted input) or `over(order_by=..)`."""
+    from ..dispatch import Cond, Slicer
+
+    pol = repo.mod("backend.polars")
+    f = pol.func("compile_col_expr")
+    subj = f.args.args[0].arg
+    items = Slicer(sym, pol, subj, sym.cls("ColFn")).slice(f.body)
+    stmts = [it.node if isinstance(it, Cond) else it for it in items]
+    fixed = {"args", "partition_by", "arrange", "order_by", "descending", "nulls_last", "impl"}
+
+    def assigns_fixed(st):
+        for n in ast.walk(st):
+            if isinstance(n, (ast.Assign, ast.AnnAssign)):
+                tg = n.targets if isinstance(n, ast.Assign) else [n.target]
+                for t in tg:
+                    for x in ast.walk(t):
+                        if isinstance(x, ast.Name) and x.id in fixed and isinstance(t, (ast.Name, ast.Tuple)):
+                            return True
+            if isinstance(n, ast.NamedExpr) and isinstance(n.target, ast.Name) and n.target.id in fixed:
+                return True
+        return False
+
+    # keep the statements from the implementation call onwards plus the pre-sorting `if`; drop the ones that compute the
+    # variables we fix by valuation (only at top level of the slice)
+    body = [st for st in stmts if not (isinstance(st, (ast.Assign, ast.AnnAssign)) and assigns_fixed(st)) and not (isinstance(st, ast.If) and isinstance(st.test, ast.Compare) and any(isinstance(x, ast.NamedExpr) for x in ast.walk(st.test)))]
+    body = [st for st in body if not (isinstance(st, ast.If) and norm(st.test) == "arrange" and assigns_fixed(st))]
+    n = 0
+    for nargs in (0, 1):
+        ev = Evaluator({
+            "args": [Sym(f"arg{i}") for i in range(nargs)], "partition_by": None, "arrange": [Sym("ord")], "order_by": [Sym("key")],
+            "descending": [False], "nulls_last": [None], f"{subj}.op.ftype": "WINDOW", "Ftype.WINDOW": "WINDOW", "Ftype.AGGREGATE": "AGGREGATE",
+            "Ftype.ELEMENT_WISE": "ELEMENT_WISE", f"{subj}.op": "<a window operator other than rank>", "ops.rank": "rank", "ops.dense_rank": "dense_rank", f"{subj}.args": [Sym(f"e{i}") for i in range(nargs)], "op_kwargs": None,
+        })  # fmt: skip
+        ev.lenient = True
+        ev.skip_loops = True
+        try:
+            outs = ev.run_block(body)
+        except Unsupported as u:
+            chk.undecided.append(f"R8: Polars window ordering not evaluated ({u})")
+            return
+        for ret, env, _d in outs:
+            if ret is None:
+                continue
+            n += 1
+            tags = all_tags(ret)
+            ordered = any(t[0] == "call" and t[1] == "sort_by" for t in tags) or any(t[0] == "kw" and t[1] == "order_by" and t[2] not in (None,) for t in tags)
+            # for nargs >= 1 the argument itself may have been sorted: that alone computes in order but then the result must be
+            # un-permuted (a second sort_by on the value) - both show up as sort_by tags; for nargs == 0 only the value can carry it
+            chk.ob("R8", pol, f, f"polars window function, arrange given, no partition, {nargs} argument(s): result is ordered", ordered,
+                   f"a window function with {nargs} positional argument(s), `arrange=` and no partition is compiled without any ordering step: "
+                   "`arrange=` is silently ignored (e.g. row_number(arrange=..) on an ungrouped table numbers the rows in table order)")  # fmt: skip
+    if n < 2:
+        chk.undecided.append("R8: Polars window ordering: the ColFn branch did not evaluate to a value for both argument counts")
+
+
+def _dedup_interpreted(chk, repo):
+    """`dedup_order_by` is a pure function on lists of ordering terms: interpreted from source on every list of up to four
+    terms over two keys with all modifier combinations.  Expected: the first occurrence of a key survives *unchanged*
+    (with its own direction / null placement - an earlier arrange key has priority), later occurrences are dropped, the
+    order of the survivors is the order of first occurrence."""
+    import itertools
+
+    from ..catalogue import _ModuleNS
+    from ..interp import Func, Interp, Obj, PyRaise
+
+    sql = repo.mod("backend.sql")
+    f = sql.func("dedup_order_by")
+    stub = ast.parse("class UnaryExpression:\n    element: object = None\n    modifier: object = None\nclass Column:\n    name: object = None\n")
+    env: dict = {}
+    it = Interp(sql, env)
+    for c in stub.body:
+        c.decorator_list = [ast.Name(id="dataclass", ctx=ast.Load())]
+        env[c.name] = it.make_class(c, env)
+        env[c.name].is_dataclass = True
+    env["sqa"] = _ModuleNS({"UnaryExpression": env["UnaryExpression"], "ColumnElement": env["Column"]})
+    keys = []
+    for nm in ("k", "v"):
+        o = Obj(env["Column"])
+        o.attrs["name"] = nm
+        keys.append(o)
+
+    def wrap(key, mods):
+        e = key
+        for m_ in mods:
+            u = Obj(env["UnaryExpression"])
+            u.attrs.update({"element": e, "modifier": m_})
+            e = u
+        return e
+
+    variants = []
+    for key in keys:
+        for mods in ((), ("asc",), ("desc",), ("desc", "nulls_last"), ("asc", "nulls_first")):
+            variants.append((key, mods))
+    fn = Func(f, env, it)
+    n = 0
+    bad = []
+    for k in (1, 2, 3):
+        for combo in itertools.product(range(len(variants)), repeat=k):
+            terms = [wrap(*variants[i]) for i in combo]
+            want = []
+            seen = set()
+            for t_, i in zip(terms, combo):
+                if id(variants[i][0]) not in seen:
+                    seen.add(id(variants[i][0]))
+                    want.append(t_)
+            n += 1
+            try:
+                got = list(it.call(fn, [list(terms)], {}, f, env))
+            except PyRaise as p_:
+                bad.append((combo, f"raises {p_.name}"))
+                continue
+            if len(got) != len(want) or any(g is not w for g, w in zip(got, want)):
+                desc = [f"{variants[i][0].attrs['name']}{list(variants[i][1])}" for i in combo]
+                bad.append((desc, "a later occurrence (or its modifiers) wins / order changed"))
+    chk.ob("R2", sql, f, f"dedup_order_by interpreted on {n} ordering lists: first occurrence of a key survives unchanged", not bad and n > 100,
+           f"dedup_order_by does not keep the first occurrence of a repeated ordering key unchanged for {len(bad)} of {n} lists, e.g. "
+           f"{bad[0][0] if bad else ''}: {bad[0][1] if bad else ''} - a later arrange / a lower-priority key decides direction or null placement")  # fmt: skip
 
 
 def _grouping_injection(chk, repo):
